@@ -205,6 +205,7 @@ func sends[T any](ch chan T) int { return 0 }
 //@   at store paramReconfigResponse.result assert#in-progress-until-then{C14}
 //@      stored == ite(resetRequest.senderLastTSN == a.payloadQueue.cumulativeTSN || specSerLT32(resetRequest.senderLastTSN, a.payloadQueue.cumulativeTSN), reconfigResultSuccessPerformed, reconfigResultInProgress)
 //@   loop 1 atend assert#reset-stream-is-unregistered{C14} !ok || a.streams[s.streamIdentifier] == nil
+//@   loop 1 atend assert#unread-bytes-stay-in-the-advertised-window{C11} !ok || s.reassemblyQueue.nBytes == 0
 
 //@ func Association.resetOutgoingStreamSequenceNumbers
 //@   at call Stream.resetOutgoingStreamSequenceNumbers assert#only-streams-of-the-acknowledged-request{C14} reconfig != nil && ok
@@ -220,3 +221,26 @@ func sends[T any](ch chan T) int { return 0 }
 //@   at call chunkPayloadData.setAbandoned@2 assert#lifetime-expired{C06} chunkPayload.payloadType != PayloadTypeWebRTCDCEP && arg1 &&
 //@      stream.reliabilityType == ReliabilityTypeTimed && elapsed >= int64(stream.reliabilityValue)
 //@   ensures#dcep-never-abandoned{C06} chunkPayload.payloadType == PayloadTypeWebRTCDCEP ==> chunkPayload.abandoned() == old(chunkPayload.abandoned())
+
+// ---- obligations that fail on the current tree: recorded known findings (see /verif/known_findings.json) ----
+
+func specMarkedAbandoned(p *chunkPayloadData) bool {
+	if p.head != nil {
+		return p.head._abandoned
+	}
+
+	return p._abandoned
+}
+
+//@ func Association.createSelectiveAckChunk
+//@   ensures#reports-the-current-cumulative-point{C05} result != nil && result.cumulativeTSNAck == a.payloadQueue.cumulativeTSN
+//@   ensures#fits-the-16-bit-chunk-length{C12} 16+4*len(result.gapAckBlocks)+4*len(result.duplicateTSN) <= 65535
+
+//@ func Association.getDataPacketsToRetransmit
+//@   at store chunkPayloadData.nSent assert#abandoned-messages-are-not-retransmitted{C06} !specMarkedAbandoned(chunkPayload)
+
+//@ func Association.onRackAfterSACK
+//@   at store chunkPayloadData.retransmit assert#loss-found-by-rack-cuts-the-window{C10} !stored || a.inFastRecovery
+
+//@ func Association.onRackTimeoutLocked
+//@   at store chunkPayloadData.retransmit assert#loss-found-by-rack-timer-cuts-the-window{C10} !stored || a.inFastRecovery
